@@ -7,7 +7,8 @@
  *   rP      NON GET /r from peer P                       (plain request, answered 2.05)
  *   oP.K    NON GET /oK with Observe:0, token [P,K]      (K = 0|1: observer entry holds a session reference)
  *   dP.K    NON GET /oK with Observe:1, token [P,K]      (deregister)
- *   aP      CON GET /a, the handler calls coap_register_async(delay 0)   (async entry holds a reference)
+ *   aP      CON GET /a, token [P,2], the handler calls coap_register_async(delay 0)   (async entry holds a reference;
+ *           a request with the token of a pending async entry is not passed to the handler, hence the separate token)
  *   fP      application: coap_free_async() of P's async entry
  *   qP      application: coap_session_send_ping() on P's session          (CON in the send queue holds a reference)
  *   kP      peer P answers the outstanding CON of its session with RST    (queue node removed)
@@ -21,7 +22,8 @@
  *
  * output: per event  "<ev> <outcome> E<events> R<idx=ref@last_rx_tx,...> I<idle ep0>/<idle ep1> L<sessions>/<subscriptions>/<nodes>"
  * joined by " ; ", where session idx = order of the SERVER_SESSION_NEW events, events = N<idx> / D<idx> in order,
- * outcome = h<idx> (request/nack handler ran on that session) | ok | skip, L = live allocations by memory tag from the
+ * (D<idx>!ref = the session's reference count was not 0 when its DEL event was raised, D<idx>!appref = the application
+ * still holds a reference it took), outcome = h<idx> (request/nack handler ran on that session) | ok | skip, L = live allocations by memory tag from the
  * wrapped allocator; then " | A <allocation trace>" : a<serial>:<tag> / f<serial> (f0 = free of a pointer that was never
  * allocated inside the trace) and " | lsan=<0|1>" (recoverable leak check).  harness/sessions_pipe.py replaces the trace
  * by the verdict of the Lean-verified monitor Coap.Sessions.ledgerOk (driver op `ledger`).
@@ -140,7 +142,7 @@ static int on_event(coap_session_t *session, const coap_event_t event) {
     int i = reg_idx(session);
     if (i < 0) ev_put("%sD?", evlen ? "," : "");
     else {
-      ev_put("%sD%d%s", evlen ? "," : "", i, reg[i].appref ? "!appref" : "");
+      ev_put("%sD%d%s%s", evlen ? "," : "", i, session->ref ? "!ref" : "", reg[i].appref ? "!appref" : "");
       reg[i].live = 0;
       for (int p = 0; p < NPEER; p++) if (peer_sess[p] == i) peer_sess[p] = -1;
     }
@@ -190,7 +192,7 @@ static void inject_req(int p, int type, const uint8_t *tok, size_t tkl, int obse
   uint8_t b[32];
   size_t n = 0, pl = strlen(path);
   coap_address_t src;
-  unsigned mid = ++peer_mid[p];
+  unsigned mid = 0x4000u + (++peer_mid[p] & 0x3fffu);   /* never the mid of a CON the server has outstanding (those count up from 1) */
   b[n++] = (uint8_t)(0x40 | (type << 4) | (int)tkl);
   b[n++] = 1;
   b[n++] = (uint8_t)(mid >> 8); b[n++] = (uint8_t)mid;
@@ -230,7 +232,12 @@ static void dump_state(const char *ev, const char *outcome) {
   printf(" L%d/%d/%d", tr_live[COAP_SESSION], tr_live[COAP_SUBSCRIPTION], tr_live[COAP_NODE]);
 }
 
-static void h_init(void) { sim_global_init(); }
+static void h_init(void) {
+  static char obuf[1 << 22];
+  sim_global_init();
+  /* lines are long: full buffering + a flush at the start of the next step, so that a crash never leaves a partial line */
+  setvbuf(stdout, obuf, _IOFBF, sizeof(obuf));
+}
 
 static coap_queue_t *first_node_of(coap_session_t *s) {
   for (coap_queue_t *q = g_ctx->sendqueue; q; q = q->next) if (q->session == s) return q;
@@ -287,6 +294,7 @@ static void step(char *line) {
   static char *w[4096];
   int n = h_words(line, w, 4096);
   int first = 1, bad = 0;
+  fflush(stdout);
   if (n < 1 || strcmp(w[0], "sess")) { printf("bad-op"); return; }
   /* validate before running anything */
   for (int i = 1; i < n; i++) {
@@ -309,16 +317,17 @@ static void step(char *line) {
     if (!g_ctx) break;
     if (i == n) e = "F.";
     handled = -2;
+    unsigned ntx0 = sim_ntx;
     if (strchr("roadfqk+-x", c)) parse_pk(e + 1, &p, &k);
     switch (c) {
     case 'r': { uint8_t t[1] = {(uint8_t)p}; inject_req(p, 1, t, 1, -1, "r"); break; }
     case 'o': { uint8_t t[2] = {(uint8_t)p, (uint8_t)k}; if (!g_obs[k]) { strcpy(outcome, "skip"); break; } inject_req(p, 1, t, 2, 0, k ? "o1" : "o0"); break; }
     case 'd': { uint8_t t[2] = {(uint8_t)p, (uint8_t)k}; if (!g_obs[k]) { strcpy(outcome, "skip"); break; } inject_req(p, 1, t, 2, 1, k ? "o1" : "o0"); break; }
-    case 'a': { uint8_t t[1] = {(uint8_t)p}; inject_req(p, 0, t, 1, -1, "a"); break; }
+    case 'a': { uint8_t t[2] = {(uint8_t)p, 2}; inject_req(p, 0, t, 2, -1, "a"); break; }
     case 'f': {
       int si = peer_sess[p];
-      uint8_t t[1] = {(uint8_t)p};
-      coap_bin_const_t tok = {1, t};
+      uint8_t t[2] = {(uint8_t)p, 2};
+      coap_bin_const_t tok = {2, t};
       coap_async_t *as = si >= 0 ? coap_find_async(reg[si].s, tok) : NULL;
       if (!as) { strcpy(outcome, "skip"); break; }
       coap_free_async(reg[si].s, as);
@@ -370,6 +379,9 @@ static void step(char *line) {
     case 's': coap_context_set_session_timeout(g_ctx, (unsigned)strtoul(e + 1, NULL, 10)); break;
     case 'F': teardown(); break;
     }
+    /* a datagram the library answered itself (e.g. the ACK repeated for a request whose async entry is pending):
+     * the session it was handled on is the one the answer was sent on */
+    if (handled == -2 && strchr("roda", c) && sim_ntx > ntx0 && strcmp(outcome, "skip")) handled = reg_idx(sim_tx[ntx0].session);
     if (handled != -2) { if (handled >= 0) snprintf(outcome, sizeof(outcome), "h%d", handled); else strcpy(outcome, "h?"); }
     if (!first) printf(" ; ");
     first = 0;
@@ -386,10 +398,11 @@ static void step(char *line) {
   {
     int leak = getenv("H_NO_LSAN") ? 0 : __lsan_do_recoverable_leak_check();
     printf(" | lsan=%d", leak);
-    /* a leak reported once would be reported again after every later line: hand what the ledger knows to be leaked
-     * over to LSan's ignore list (objects reachable from it are then reachable too) */
-    if (leak)
-      for (unsigned h = 0; h < TR_HASH; h++)
+    /* a leak reported once would be reported again after every later line, and one LSan missed on its own line (a stale
+     * pointer in a register / dead stack slot) would be blamed on a later line: hand everything the LEDGER knows to be
+     * leaked over to LSan's ignore list (objects reachable from it are then reachable too).  LSan's verdict is therefore
+     * about leaks the ledger cannot see, plus a second opinion on the line's own. */
+    for (unsigned h = 0; h < TR_HASH; h++)
         if (tr_tab[h].p && !tr_tab[h].freed) __lsan_ignore_object((void *)~tr_tab[h].p);
   }
 }
